@@ -327,24 +327,26 @@ def observe(case: dict) -> dict:
                                 ch.append(f"{k_} of {b.idof.get(el_)}")
                     return ch
                 ch1 = changed()
-                # the same dictionary again on the same objects, then the pristine values on the same objects
+                # the same dictionary again on the same objects
                 b.net.step(init_conditions=ic, engine=np_engine(), **okw, **kw)
                 y2, _ = b.read_next()
                 ch2 = changed()
-                b.net.step(init_conditions={el_: {k_: v_.copy() for k_, v_ in dd.items()} for el_, dd in pristine.items()},
-                           engine=np_engine(), **okw, **kw)
-                y3, _ = b.read_next()
-                # the caller reuses its buffers: same array objects, new contents
+                # the caller reuses its buffers: the same array objects, refilled in place with other values
                 for el_, dd in ic.items():
                     for k_, v_ in dd.items():
                         v_[...] = pristine[el_][k_] * 0.875 + 0.5
                 moved = {el_: {k_: v_.copy() for k_, v_ in dd.items()} for el_, dd in ic.items()}
                 b.net.step(init_conditions=ic, engine=np_engine(), **okw, **kw)
                 y4, _ = b.read_next()
+                # ... must equal a fresh network stepped from fresh arrays holding those values
                 bf = Built(case)
                 fresh = {bf.links.get(b.idof[el_]) or bf.origins.get(b.idof[el_]) or bf.dests.get(b.idof[el_]): dd for el_, dd in moved.items()}
                 bf.net.step(init_conditions=fresh, engine=np_engine(), **okw, **kw)
                 y5, _ = bf.read_next()
+                # and the original values again, in new arrays, on the same (much used) network objects
+                b.net.step(init_conditions={el_: {k_: v_.copy() for k_, v_ in dd.items()} for el_, dd in pristine.items()},
+                           engine=np_engine(), **okw, **kw)
+                y3, _ = b.read_next()
                 o["pure"] = {"has": True, "changed": sorted(set(ch1 + ch2)), "y2": y2, "y3": y3, "y4": y4, "y5": y5}
         except BaseException as e:  # noqa: BLE001
             o["err"] = errstr(e)
